@@ -13,6 +13,7 @@ MCUBatches == {<<e1, e2>> : e1 \in UE, e2 \in UE}
 MCWBatches == {<< <<<<3, 3>>, 2>>, <<<<5, 9>>, 3>> >>, << <<<<3, 3, 3>>, 2>>, <<<<3, 5, 9>>, 3>>, <<<<3, 7, 9>>, 1>> >>}
 MCOps == {"FromArrays", "Construct", "Project", "ProjectAgain", "ProjectRefused", "Transpose", "Accumulate", "DropD"}
 MCScaleArgs == {<<2, 1>>}
+MCCellArgs == {}
 MCRetCands == {NoneRet}
 Seqs(S, n) == {q \in [1..n -> S] : \A i, j \in 1..n : i # j => q[i] # q[j]}
 MCProjAxes == Seqs(1..4, 1) \cup Seqs(1..4, 2) \cup Seqs(1..4, 3) \cup {<<>>, <<1, 1>>, <<5>>, <<2, 1, 2>>}
